@@ -100,7 +100,7 @@ class _Match(Generic[AnyStr]):
                 try:
                     for i, star in enumerate(m.groups(), 1):
                         if star:
-                            at_end = m.end(i) == end
+                            at_end = m.end(i) >= end
                             parts = split.split(star.strip(strip))
                             base = os.path.join(root, filename[:m.start(i)])
                             last_part = len(parts)
